@@ -16,13 +16,23 @@ def SLocal (s : State) (g : EvLog) (c : Nat) : Prop :=
       g.retAt c = none ∧ g.startAt c = none ∧ g.endAt c = none
   | .running =>
     (∃ i a, g.invAt c = some i ∧ g.startAt c = some a ∧ i < a) ∧ g.retAt c = none ∧ g.endAt c = none
-  | .ran _ | .setDone _ =>
+  | .ran _ =>
     (∃ i a b, g.invAt c = some i ∧ g.startAt c = some a ∧ g.endAt c = some b ∧ i < a ∧ a < b) ∧
+      g.retAt c = none
+  | .setDone _ =>
+    (match s.src c with
+     -- the leader's re-check hit the cache: no execution in the log
+     | some (.lhit _ _) => (∃ i, g.invAt c = some i) ∧ g.startAt c = none ∧ g.endAt c = none
+     | _ => ∃ i a b, g.invAt c = some i ∧ g.startAt c = some a ∧ g.endAt c = some b ∧ i < a ∧ a < b) ∧
       g.retAt c = none
   | .done _ =>
     match s.src c with
     | some (.hit _) =>
       (∃ i t, g.invAt c = some i ∧ g.retAt c = some t ∧ i < t) ∧ g.startAt c = none ∧ g.endAt c = none
+    | some (.lhit l _) =>
+      -- no execution of its own; a joiner returned after the leader `l`, and was invoked before `l` returned
+      (∃ i t, g.invAt c = some i ∧ g.retAt c = some t ∧ i < t ∧
+          (l = c ∨ ∃ tl, g.retAt l = some tl ∧ i < tl ∧ tl < t)) ∧ g.startAt c = none ∧ g.endAt c = none
     | some (.exec l) =>
       (l = c ∧ ∃ i a b t, g.invAt c = some i ∧ g.startAt c = some a ∧ g.endAt c = some b ∧
           g.retAt c = some t ∧ i < a ∧ a < b ∧ b < t)
@@ -69,6 +79,16 @@ theorem slocal_congr {s s' : State} {g g' : EvLog} {c : Nat}
     | some x =>
       cases x with
       | hit v => simp only [hs] at h ⊢; exact h
+      | lhit l v =>
+        simp only [hs] at h ⊢
+        obtain ⟨⟨i, t, h1, h2, h3, h4⟩, h5⟩ := h
+        refine ⟨⟨i, t, h1, h2, h3, ?_⟩, h5⟩
+        rcases h4 with h4 | ⟨tl, h6, h7⟩
+        · exact Or.inl h4
+        · refine Or.inr ⟨tl, ?_, h7⟩
+          rcases hx.ret l with h | ⟨h, _⟩
+          · rw [h]; exact h6
+          · rw [h] at h6; cases h6
       | exec l =>
         simp only [hs] at h ⊢
         rcases h with h | ⟨h1, h2, h3, i, t, a, b, tl, h4, h5, h6, h7, h8, h9⟩
@@ -202,16 +222,23 @@ theorem started_cases {s : State} {g : EvLog} {c x : Nat} (h : SLocal s g c) (hs
     | some y =>
       cases y with
       | hit v => simp only [hsrc] at h; rw [h.2.1] at hs; cases hs
+      | lhit l v => simp only [hsrc] at h; rw [h.2.1] at hs; cases hs
       | exec l =>
         simp only [hsrc] at h
         rcases h with ⟨_, i, a, b, t, _, _, h3, _⟩ | ⟨_, h2, _⟩
         · exact Or.inr ⟨b, h3⟩
         · rw [h2] at hs; cases hs
 
+/-- a caller that has published a result has returned it; it led the execution that produced it, or its
+re-check as leader read it from the cache -/
 theorem published_done {cfg : Cfg} {s : State} {l : Nat} {r : Res} (hl : Local cfg s l)
-    (hr : s.result l = some r) : s.pc l = .done r ∧ s.src l = some (.exec l) := by
-  unfold Local at hl
-  cases hp : s.pc l <;> simp only [hp] at hl <;> simp_all
+    (hr : s.result l = some r) :
+    s.pc l = .done r ∧ (s.src l = some (.exec l) ∨ ∃ v, r = .ok v ∧ s.src l = some (.lhit l v)) := by
+  obtain ⟨h1, h2⟩ := published_cases hl hr
+  refine ⟨h1, ?_⟩
+  rcases h2 with ⟨h2, _⟩ | ⟨v, h2, h3, _⟩
+  · exact Or.inl h2
+  · exact Or.inr ⟨v, h2, h3⟩
 
 theorem sinv_cacheCheck {cfg : Cfg} {c0 : Nat → Cell} {s s' : State} {g : EvLog} {a : Nat}
     (_hi : Inv cfg c0 s) (h : SInv cfg s g) (hs : step cfg s (.cacheCheck a) = some s') :
@@ -293,6 +320,30 @@ theorem sinv_doEnter {cfg : Cfg} {c0 : Nat → Cell} {s s' : State} {g : EvLog} 
         exact ha
       · sothers s g hca hx f2 (f3 c)
 
+theorem sinv_leadHit {cfg : Cfg} {c0 : Nat → Cell} {s s' : State} {g : EvLog} {a : Nat}
+    (_hi : Inv cfg c0 s) (h : SInv cfg s g) (hs : step cfg s (.leadHit a) = some s') :
+    SInv cfg s' (logStep cfg s g (.leadHit a)) := by
+  simp only [step] at hs
+  obtain ⟨f1, f2, f3, f4⟩ := h
+  split at hs <;> try (simp at hs)
+  rename_i hpc
+  have ha := f3 a
+  simp only [SLocal, hpc] at ha
+  have hx : Ext g (logStep cfg s g (.leadHit a)) :=
+    ⟨rfl, fun _ => Or.inl rfl, fun _ => Or.inl rfl, fun _ => Or.inl rfl, fun _ => Or.inl rfl⟩
+  split at hs <;> simp at hs
+  subst hs
+  refine ⟨?_, bnd_ext hx f2, ?_, dis_ext hx rfl f4⟩
+  · intro k l hk
+    have := f1 k l hk
+    grind [upd_apply, active]
+  · intro c
+    by_cases hca : c = a
+    · subst hca
+      simp only [SLocal, upd_same, logStep]
+      exact ⟨⟨ha.1, ha.2.2⟩, ha.2.1⟩
+    · sothers s g hca hx f2 (f3 c)
+
 theorem sinv_fnStart {cfg : Cfg} {c0 : Nat → Cell} {s s' : State} {g : EvLog} {a : Nat}
     (hi : Inv cfg c0 s) (h : SInv cfg s g) (hs : step cfg s (.fnStart a) = some s') :
     SInv cfg s' (logStep cfg s g (.fnStart a)) := by
@@ -303,6 +354,7 @@ theorem sinv_fnStart {cfg : Cfg} {c0 : Nat → Cell} {s s' : State} {g : EvLog} 
   have ha := f3 a
   simp only [SLocal, hpc] at ha
   have hfa := hi.lead a (by simp [hpc, active])
+  split at hs <;> simp at hs
   subst hs
   have hx : Ext g (logStep cfg s g (.fnStart a)) :=
     ⟨rfl, fun _ => Or.inl rfl, fun _ => Or.inl rfl, ext_upd ha.2.2.1, fun _ => Or.inl rfl⟩
@@ -364,7 +416,7 @@ theorem sinv_fnEnd {cfg : Cfg} {c0 : Nat → Cell} {s s' : State} {g : EvLog} {a
     · sothers s g hca hx f2 (f3 c)
 
 theorem sinv_cacheSet {cfg : Cfg} {c0 : Nat → Cell} {s s' : State} {g : EvLog} {a : Nat}
-    (_hi : Inv cfg c0 s) (h : SInv cfg s g) (hs : step cfg s (.cacheSet a) = some s') :
+    (hi : Inv cfg c0 s) (h : SInv cfg s g) (hs : step cfg s (.cacheSet a) = some s') :
     SInv cfg s' (logStep cfg s g (.cacheSet a)) := by
   simp only [step] at hs
   obtain ⟨f1, f2, f3, f4⟩ := h
@@ -375,6 +427,9 @@ theorem sinv_cacheSet {cfg : Cfg} {c0 : Nat → Cell} {s s' : State} {g : EvLog}
     rename_i hpc
     have ha := f3 a
     simp only [SLocal, hpc] at ha
+    have hla := hi.loc a
+    simp only [Local, hpc] at hla
+    have hsrc : s.src a = some (.exec a) := hla.1
     subst hs
     refine ⟨?_, bnd_ext hx f2, ?_, dis_ext hx rfl f4⟩
     · intro k l hk
@@ -383,7 +438,7 @@ theorem sinv_cacheSet {cfg : Cfg} {c0 : Nat → Cell} {s s' : State} {g : EvLog}
     · intro c
       by_cases hca : c = a
       · subst hca
-        simp only [SLocal, upd_same, logStep]
+        simp only [SLocal, upd_same, logStep, hsrc]
         exact ha
       · sothers s g hca hx f2 (f3 c)
 
@@ -410,9 +465,15 @@ theorem sinv_doFinish {cfg : Cfg} {c0 : Nat → Cell} {s s' : State} {g : EvLog}
   · intro c
     by_cases hca : c = a
     · subst hca
-      obtain ⟨i, x, b, h1, h2, h3, h4, h5⟩ := ha.1
-      simp only [SLocal, upd_same, logStep, hla.1]
-      exact Or.inl ⟨trivial, i, x, b, g.n, h1, h2, h3, rfl, h4, h5, f2 _ b (Or.inr (Or.inr (Or.inr h3)))⟩
+      rcases hla with hla | ⟨v, _, hla, _⟩
+      · simp only [hla.1] at ha
+        obtain ⟨i, x, b, h1, h2, h3, h4, h5⟩ := ha.1
+        simp only [SLocal, upd_same, logStep, hla.1]
+        exact Or.inl ⟨trivial, i, x, b, g.n, h1, h2, h3, rfl, h4, h5, f2 _ b (Or.inr (Or.inr (Or.inr h3)))⟩
+      · simp only [hla] at ha
+        obtain ⟨⟨i, h1⟩, h2, h3⟩ := ha.1
+        simp only [SLocal, upd_same, logStep, hla]
+        exact ⟨⟨i, g.n, h1, rfl, f2 _ i (Or.inl h1), Or.inl trivial⟩, h2, h3⟩
     · sothers s g hca hx f2 (f3 c)
 
 theorem sinv_wake {cfg : Cfg} {c0 : Nat → Cell} {s s' : State} {g : EvLog} {a : Nat}
@@ -442,13 +503,22 @@ theorem sinv_wake {cfg : Cfg} {c0 : Nat → Cell} {s s' : State} {g : EvLog} {a 
       obtain ⟨hpl, hsl⟩ := published_done (hi.loc l) hr
       have hlc : l ≠ c := by intro h; subst h; rw [hpc] at hpl; cases hpl
       have hl := f3 l
-      simp only [SLocal, hpl, hsl] at hl
-      rcases hl with ⟨_, il, x, b, tl, _, g2, g3, g4, _, g6, g7⟩ | ⟨hne, _⟩
-      · simp only [SLocal, upd_same, logStep, hla.1]
-        refine Or.inr ⟨hlc, h3, h4, i, g.n, x, b, tl, h1, rfl, g2, g3, ?_, g6, g7, ?_, h2 tl g4⟩
+      rcases hsl with hsl | ⟨v, _, hsl⟩
+      · have e1 : wakeSrc s c l = some (.exec l) := by simp only [wakeSrc, hsl]; exact hla.1
+        simp only [SLocal, hpl, hsl] at hl
+        rcases hl with ⟨_, il, x, b, tl, _, g2, g3, g4, _, g6, g7⟩ | ⟨hne, _⟩
+        · simp only [SLocal, upd_same, logStep, e1]
+          refine Or.inr ⟨hlc, h3, h4, i, g.n, x, b, tl, h1, rfl, g2, g3, ?_, g6, g7, ?_, h2 tl g4⟩
+          · rw [upd_other _ _ _ _ hlc]; exact g4
+          · exact f2 l tl (Or.inr (Or.inl g4))
+        · exact absurd rfl hne
+      · have e1 : wakeSrc s c l = some (.lhit l v) := by simp only [wakeSrc, hsl]
+        simp only [SLocal, hpl, hsl] at hl
+        obtain ⟨⟨il, tl, _, g4, _, _⟩, _⟩ := hl
+        simp only [SLocal, upd_same, logStep, e1]
+        refine ⟨⟨i, g.n, h1, rfl, f2 _ i (Or.inl h1), Or.inr ⟨tl, ?_, h2 tl g4, ?_⟩⟩, h3, h4⟩
         · rw [upd_other _ _ _ _ hlc]; exact g4
         · exact f2 l tl (Or.inr (Or.inl g4))
-      · exact absurd rfl hne
     · sothers s g hca hx f2 (f3 c)
 
 theorem sinv_tick {cfg : Cfg} {s s' : State} {g : EvLog} {d : Nat}
@@ -471,6 +541,7 @@ theorem sinv_step {cfg : Cfg} {c0 : Nat → Cell} {s s' : State} {g : EvLog} {l 
   | invoke a => exact sinv_invoke hi h hs
   | cacheCheck a => exact sinv_cacheCheck hi h hs
   | doEnter a => exact sinv_doEnter hi h hs
+  | leadHit a => exact sinv_leadHit hi h hs
   | fnStart a => exact sinv_fnStart hi h hs
   | fnEnd a r => exact sinv_fnEnd hi h hs
   | cacheSet a => exact sinv_cacheSet hi h hs
@@ -506,15 +577,22 @@ theorem execRes_logged {cfg : Cfg} {c0 : Nat → Cell} {s : State} {g : EvLog} {
   | leader => simp only [hp] at h1; rw [h1.2.2.1] at hr; cases hr
   | running => simp only [hp] at h1; rw [h1.2.2.1] at hr; cases hr
   | ran x => simp only [hp] at h2; obtain ⟨⟨i, a, b, _, _, h3, _⟩, _⟩ := h2; exact ⟨b, h3⟩
-  | setDone x => simp only [hp] at h2; obtain ⟨⟨i, a, b, _, _, h3, _⟩, _⟩ := h2; exact ⟨b, h3⟩
+  | setDone x =>
+    simp only [hp] at h1 h2
+    rcases h1 with h1 | ⟨v, _, _, _, h3, _⟩
+    · simp only [h1.1] at h2; obtain ⟨⟨i, a, b, _, _, h3, _⟩, _⟩ := h2; exact ⟨b, h3⟩
+    · rw [h3] at hr; cases hr
   | done x =>
     simp only [hp] at h1 h2
-    rcases h1 with ⟨v, _, _, _, h3, _⟩ | ⟨h3, _⟩ | ⟨y, _, _, _, _, h3, _⟩
+    rcases h1 with ⟨v, _, _, _, h3, _⟩ | ⟨h3, _⟩ | ⟨y, _, _, _, _, h3, _⟩ | ⟨v, _, _, _, h3, _⟩ |
+      ⟨y, v, _, _, _, _, _, h3, _⟩
     · rw [h3] at hr; cases hr
     · simp only [h3] at h2
       rcases h2 with ⟨_, i, a, b, t, _, _, h4, _⟩ | ⟨hne, _⟩
       · exact ⟨b, h4⟩
       · exact absurd rfl hne
+    · rw [h3] at hr; cases hr
+    · rw [h3] at hr; cases hr
     · rw [h3] at hr; cases hr
 
 /-! ## instants: the log under the virtual clock -/
@@ -524,12 +602,19 @@ def TLocal (s : State) (g : EvLog) (c : Nat) : Prop :=
   match s.pc c with
   | .idle => True
   | .start | .missed | .leader => g.invT c = some s.now
-  | .waiting l => (∃ ti, g.invT c = some ti) ∧ ∀ r, s.result l = some r → g.endT l = some s.now
+  | .waiting l => (∃ ti, g.invT c = some ti) ∧
+      ∀ r, s.result l = some r → g.endT l = some s.now ∨ ∃ v, s.src l = some (.lhit l v)
   | .running => ∃ ti, g.invT c = some ti ∧ g.startT c = some ti
-  | .ran _ | .setDone _ => ∃ ti, g.invT c = some ti ∧ g.startT c = some ti ∧ g.endT c = some s.now
+  | .ran _ => ∃ ti, g.invT c = some ti ∧ g.startT c = some ti ∧ g.endT c = some s.now
+  | .setDone _ =>
+    match s.src c with
+    -- the leader's re-check hit the cache: no time has passed since the invocation
+    | some (.lhit _ _) => g.invT c = some s.now
+    | _ => ∃ ti, g.invT c = some ti ∧ g.startT c = some ti ∧ g.endT c = some s.now
   | .done _ =>
     match s.src c with
     | some (.hit _) => ∃ ti, g.invT c = some ti ∧ g.retT c = some ti
+    | some (.lhit _ _) => ∃ ti, g.invT c = some ti ∧ g.retT c = some ti
     | some (.exec l) =>
       (l = c ∧ ∃ ti te, g.invT c = some ti ∧ g.startT c = some ti ∧ g.endT c = some te ∧ g.retT c = some te ∧ ti ≤ te)
       ∨ (l ≠ c ∧ ∃ ti te, g.invT c = some ti ∧ g.endT l = some te ∧ g.retT c = some te ∧ ti ≤ te)
@@ -538,6 +623,21 @@ def TLocal (s : State) (g : EvLog) (c : Nat) : Prop :=
 structure TInv (s : State) (g : EvLog) : Prop where
   mono : ∀ c ti, g.invT c = some ti → ti ≤ s.now
   loc : ∀ c, TLocal s g c
+
+/-- the flights whose leader's re-check hit the cache (virtual clock): nothing takes time there, and the
+value the leader read stays live until everybody has been served -/
+structure LInv (cfg : Cfg) (s : State) (g : EvLog) : Prop where
+  /-- a joiner's leader is still the registered call of the key, or has published its result -/
+  fl : ∀ c l, s.pc c = .waiting l → s.flight (cfg.key c) = some l ∨ ∃ r, s.result l = some r
+  /-- between `leadHit` and `doFinish` the value the leader read is still live -/
+  lead : ∀ c v, s.src c = some (.lhit c v) → s.result c = none →
+          cellGet s.now (s.cache (cfg.key c)) = some v
+  /-- the joiners of a leader that has not done its re-check yet were invoked at the current instant -/
+  fresh : ∀ c l, s.pc c = .waiting l → s.pc l = .leader → g.invT c = some s.now
+  /-- the joiners of a leader whose re-check hit the cache were invoked at the current instant, and the
+  value the leader read is still live -/
+  wait : ∀ c l v, s.pc c = .waiting l → s.src l = some (.lhit l v) →
+          g.invT c = some s.now ∧ cellGet s.now (s.cache (cfg.key c)) = some v
 
 theorem pub_not_running {cfg : Cfg} {c0 : Nat → Cell} {s : State} (hi : Inv cfg c0 s) (l : Nat) (r : Res)
     (h : s.result l = some r) : s.pc l ≠ .running := by
@@ -549,18 +649,23 @@ theorem joiner_published {cfg : Cfg} {c0 : Nat → Cell} {s : State} (hi : Inv c
     (hd : s.pc c = .done r) (hs : s.src c = some (.exec l)) (hne : l ≠ c) : s.result l = some r := by
   have h := hi.loc c
   simp only [Local, hd] at h
-  rcases h with ⟨v, _, h2, _⟩ | ⟨h2, _⟩ | ⟨y, h2, _, h3, _⟩
+  rcases h with ⟨v, _, h2, _⟩ | ⟨h2, _⟩ | ⟨y, h2, _, h3, _⟩ | ⟨v, _, h2, _⟩ | ⟨y, v, _, h2, _⟩
   · rw [hs] at h2; cases h2
   · rw [hs] at h2; cases h2; exact absurd rfl hne
   · rw [hs] at h2; cases h2; exact h3
+  · rw [hs] at h2; cases h2
+  · rw [hs] at h2; cases h2
 
 /-- a caller that did not move keeps its `TLocal` fact when the clock stands still, nothing new is
-published, its own instants are unchanged and only running callers' end instants are written -/
+published except by a leader whose execution has just ended or whose re-check hit the cache, its own
+instants are unchanged and only running callers' end instants are written -/
 theorem tlocal_congr {cfg : Cfg} {c0 : Nat → Cell} {s s' : State} {g g' : EvLog} {c : Nat} (hinv : Inv cfg c0 s)
     (hpc : s'.pc c = s.pc c) (hsrc : s'.src c = s.src c) (hnow : s'.now = s.now)
     (hi : g'.invT c = g.invT c) (hr : g'.retT c = g.retT c) (hst : g'.startT c = g.startT c)
     (he : g'.endT c = g.endT c)
-    (hres : ∀ l r, s'.result l = some r → s.result l = some r ∨ g'.endT l = some s.now)
+    (hres : ∀ l r, s'.result l = some r →
+      s.result l = some r ∨ g'.endT l = some s.now ∨ ∃ v, s'.src l = some (.lhit l v))
+    (hsl : ∀ l, s.result l = none ∨ s'.src l = s.src l)
     (hend : ∀ l, g'.endT l = g.endT l ∨ s.pc l = .running)
     (h : TLocal s g c) : TLocal s' g' c := by
   unfold TLocal at h ⊢
@@ -569,11 +674,19 @@ theorem tlocal_congr {cfg : Cfg} {c0 : Nat → Cell} {s s' : State} {g g' : EvLo
   | waiting l =>
     simp only [hp] at h ⊢
     refine ⟨h.1, fun r hr' => ?_⟩
-    rcases hres l r hr' with h1 | h1
-    · rcases hend l with h2 | h2
-      · rw [h2]; exact h.2 r h1
-      · exact absurd h2 (pub_not_running hinv l r h1)
-    · exact h1
+    rcases hres l r hr' with h1 | h1 | h1
+    · rcases h.2 r h1 with h3 | ⟨v, h3⟩
+      · left
+        rcases hend l with h2 | h2
+        · rw [h2]; exact h3
+        · exact absurd h2 (pub_not_running hinv l r h1)
+      · right
+        refine ⟨v, ?_⟩
+        rcases hsl l with h4 | h4
+        · rw [h4] at h1; cases h1
+        · rw [h4]; exact h3
+    · exact Or.inl h1
+    · exact Or.inr h1
   | done r =>
     simp only [hp] at h ⊢
     cases hs : s.src c with
@@ -581,6 +694,7 @@ theorem tlocal_congr {cfg : Cfg} {c0 : Nat → Cell} {s s' : State} {g g' : EvLo
     | some x =>
       cases x with
       | hit v => simp only [hs] at h ⊢; exact h
+      | lhit l v => simp only [hs] at h ⊢; exact h
       | exec l =>
         simp only [hs] at h ⊢
         rcases h with h | ⟨h1, ti, te, h2, h3, h4, h5⟩
@@ -601,21 +715,90 @@ theorem tinv_init (c0 : Nat → Cell) (now : Int) : TInv (init c0 now) EvLog.emp
   mono := by intro c ti h; simp [EvLog.empty] at h
   loc := by intro c; simp [TLocal, init]
 
+theorem linv_init (cfg : Cfg) (c0 : Nat → Cell) (now : Int) : LInv cfg (init c0 now) EvLog.empty where
+  fl := by intro c l h; simp [init] at h
+  lead := by intro c v h; simp [init] at h
+  fresh := by intro c l h; simp [init] at h
+  wait := by intro c l v h; simp [init] at h
+
 theorem active_result_none {cfg : Cfg} {s : State} {l : Nat} (h : Local cfg s l)
     (ha : active (s.pc l) = true) : s.result l = none := by
   unfold Local at h
-  cases hp : s.pc l <;> simp only [hp, active] at h ha <;> first | exact h.2.2.2 | cases ha
+  cases hp : s.pc l with
+  | leader => simp only [hp] at h; exact h.2.2.2
+  | running => simp only [hp] at h; exact h.2.2.2
+  | ran r => simp only [hp] at h; exact h.2.2.2
+  | setDone r =>
+    simp only [hp] at h
+    rcases h with h | ⟨v, _, _, _, _, h⟩
+    · exact h.2.2.2
+    · exact h
+  | idle => simp [hp, active] at ha
+  | start => simp [hp, active] at ha
+  | missed => simp [hp, active] at ha
+  | waiting x => simp [hp, active] at ha
+  | done r => simp [hp, active] at ha
+
+/-- a leader whose re-check hit the cache and that has not published yet is about to (`setDone`) -/
+theorem lhit_pending {cfg : Cfg} {s : State} {c : Nat} {v : Int} (h : Local cfg s c)
+    (hs : s.src c = some (.lhit c v)) (hr : s.result c = none) : ∃ r, s.pc c = .setDone r := by
+  unfold Local at h
+  cases hp : s.pc c with
+  | setDone r => exact ⟨r, rfl⟩
+  | idle => simp only [hp] at h; rw [h.1] at hs; cases hs
+  | start => simp only [hp] at h; rw [h.1] at hs; cases hs
+  | missed => simp only [hp] at h; rw [h.1] at hs; cases hs
+  | waiting x => simp only [hp] at h; rw [h.1] at hs; cases hs
+  | leader => simp only [hp] at h; rw [h.1] at hs; cases hs
+  | running => simp only [hp] at h; rw [h.1] at hs; cases hs
+  | ran r => simp only [hp] at h; rw [h.1] at hs; cases hs
+  | done r =>
+    simp only [hp] at h
+    rcases h with ⟨w, _, h2, _⟩ | ⟨h2, _⟩ | ⟨y, h2, _⟩ | ⟨w, _, _, _, _, h2⟩ | ⟨y, w, _, h2, _, h3, _, _, h4, _⟩
+    · rw [hs] at h2; cases h2
+    · rw [hs] at h2; cases h2
+    · rw [hs] at h2; cases h2
+    · rw [hr] at h2; cases h2
+    · rw [hs] at h2; cases h2; rw [hr] at h3; cases h3
+
+/-- a value that is live now survives an offer made now (the cache refuses to replace a live value) -/
+theorem cellSet_of_live {E t T0 : Int} {cell : Cell} {v w : Int} (hl : cellGet T0 cell = some v) (ht : t ≤ T0) :
+    cellSet E t cell w = cell := by
+  unfold cellGet at hl
+  unfold cellSet
+  split at hl
+  · cases hl
+  · rename_i x e
+    simp only
+    by_cases he : e > 0
+    · simp only [he, if_true] at hl
+      by_cases h2 : T0 > e
+      · simp [h2] at hl
+      · have : t ≤ e := by omega
+        simp [this]
+    · have : e ≤ 0 := by omega
+      simp [this]
+
+theorem live_after_set {E now : Int} {cache : Nat → Cell} {k ka : Nat} {v w : Int}
+    (h : cellGet now (cache k) = some v) :
+    cellGet now (upd cache ka (cellSet E now (cache ka) w) k) = some v := by
+  by_cases hk : k = ka
+  · subst hk
+    rw [upd_same, cellSet_of_live h (Int.le_refl _)]
+    exact h
+  · rw [upd_other _ _ _ _ hk]; exact h
 
 /-- other callers' `TLocal` facts when only `a`'s instants are written and nothing is published -/
-macro "tothers " hinv:term:max s:term:max g:term:max hca:term:max hend:term:max h:term:max : tactic =>
+macro "tothers " hinv:term:max s:term:max g:term:max hca:term:max hra:term:max hend:term:max h:term:max : tactic =>
   `(tactic| exact tlocal_congr (s := $s) (g := $g) $hinv
       (by first | rfl | exact upd_other _ _ _ _ $hca) (by first | rfl | exact upd_other _ _ _ _ $hca) rfl
       (by first | rfl | exact upd_other _ _ _ _ $hca) (by first | rfl | exact upd_other _ _ _ _ $hca)
       (by first | rfl | exact upd_other _ _ _ _ $hca) (by first | rfl | exact upd_other _ _ _ _ $hca)
-      (fun _ _ hr => Or.inl hr) $hend $h)
+      (fun _ _ hr => Or.inl hr) (by first | exact fun _ => Or.inr rfl | exact src_keep $hra) $hend $h)
 
 theorem tinv_step {cfg : Cfg} {c0 : Nat → Cell} {s s' : State} {g : EvLog} {l : Label}
-    (hinv : Inv cfg c0 s) (hsi : SInv cfg s g) (h : TInv s g) (hs : step cfg s l = some s')
+    (hinv : Inv cfg c0 s) (hsi : SInv cfg s g) (h : TInv s g) (hl : LInv cfg s g)
+    (hs : step cfg s l = some s')
     (hp : ∀ d, l = .tick d → ∀ c, blocked s c) : TInv s' (logStep cfg s g l) := by
   obtain ⟨m, t⟩ := h
   have noend : ∀ x, g.endT x = g.endT x ∨ s.pc x = .running := fun _ => Or.inl rfl
@@ -623,6 +806,10 @@ theorem tinv_step {cfg : Cfg} {c0 : Nat → Cell} {s s' : State} {g : EvLog} {l 
   | invoke a =>
     simp only [step] at hs
     split at hs <;> try (simp at hs)
+    rename_i hpc
+    have hla := hinv.loc a
+    simp only [Local, hpc] at hla
+    have hra : s.result a = none := hla.2.2.2
     subst hs
     refine ⟨?_, ?_⟩
     · intro c ti hc
@@ -633,13 +820,16 @@ theorem tinv_step {cfg : Cfg} {c0 : Nat → Cell} {s s' : State} {g : EvLog} {l 
     · intro c
       by_cases hca : c = a
       · subst hca; simp only [TLocal, upd_same, logStep]
-      · tothers hinv s g hca noend (t c)
+      · tothers hinv s g hca hra noend (t c)
   | cacheCheck a =>
     simp only [step] at hs
     split at hs <;> try (simp at hs)
     rename_i hpc
     have ha := t a
     simp only [TLocal, hpc] at ha
+    have hla := hinv.loc a
+    simp only [Local, hpc] at hla
+    have hra : s.result a = none := hla.2.2.2
     split at hs <;> simp at hs <;> subst hs
     · rename_i v hv
       refine ⟨?_, ?_⟩
@@ -650,7 +840,7 @@ theorem tinv_step {cfg : Cfg} {c0 : Nat → Cell} {s s' : State} {g : EvLog} {l 
           simp only [TLocal, upd_same, logStep, hv]
           exact ⟨s.now, ha, rfl⟩
         · simp only [logStep, hv]
-          tothers hinv s g hca noend (t c)
+          tothers hinv s g hca hra noend (t c)
     · rename_i hv
       refine ⟨?_, ?_⟩
       · intro c ti hc; simp only [logStep, hv] at hc; exact m c ti hc
@@ -660,37 +850,62 @@ theorem tinv_step {cfg : Cfg} {c0 : Nat → Cell} {s s' : State} {g : EvLog} {l 
           simp only [TLocal, upd_same, logStep, hv]
           exact ha
         · simp only [logStep, hv]
-          tothers hinv s g hca noend (t c)
+          tothers hinv s g hca hra noend (t c)
   | doEnter a =>
     simp only [step] at hs
     split at hs <;> try (simp at hs)
     rename_i hpc
     have ha := t a
     simp only [TLocal, hpc] at ha
+    have hla := hinv.loc a
+    simp only [Local, hpc] at hla
+    have hra : s.result a = none := hla.2.2.2
     split at hs <;> simp at hs <;> subst hs
-    · rename_i l hl
+    · rename_i l hl'
       refine ⟨fun c ti hc => m c ti hc, ?_⟩
       intro c
       by_cases hca : c = a
       · subst hca
-        have hrl := active_result_none (hinv.loc l) (hsi.flt _ _ hl)
+        have hrl := active_result_none (hinv.loc l) (hsi.flt _ _ hl')
         simp only [TLocal, upd_same, logStep]
         refine ⟨⟨s.now, ha⟩, fun r hr => ?_⟩
         rw [hrl] at hr; cases hr
-      · tothers hinv s g hca noend (t c)
+      · tothers hinv s g hca hra noend (t c)
     · refine ⟨fun c ti hc => m c ti hc, ?_⟩
       intro c
       by_cases hca : c = a
       · subst hca
         simp only [TLocal, upd_same, logStep]
         exact ha
-      · tothers hinv s g hca noend (t c)
+      · tothers hinv s g hca hra noend (t c)
+  | leadHit a =>
+    simp only [step] at hs
+    split at hs <;> try (simp at hs)
+    rename_i hpc
+    have ha := t a
+    simp only [TLocal, hpc] at ha
+    have hla := hinv.loc a
+    simp only [Local, hpc] at hla
+    have hra : s.result a = none := hla.2.2.2
+    split at hs <;> simp at hs
+    subst hs
+    refine ⟨fun c ti hc => m c ti hc, ?_⟩
+    intro c
+    by_cases hca : c = a
+    · subst hca
+      simp only [TLocal, upd_same, logStep]
+      exact ha
+    · tothers hinv s g hca hra noend (t c)
   | fnStart a =>
     simp only [step] at hs
     split at hs <;> try (simp at hs)
     rename_i hpc
     have ha := t a
     simp only [TLocal, hpc] at ha
+    have hla := hinv.loc a
+    simp only [Local, hpc] at hla
+    have hra : s.result a = none := hla.2.2.2
+    split at hs <;> simp at hs
     subst hs
     refine ⟨fun c ti hc => m c ti hc, ?_⟩
     intro c
@@ -698,13 +913,16 @@ theorem tinv_step {cfg : Cfg} {c0 : Nat → Cell} {s s' : State} {g : EvLog} {l 
     · subst hca
       simp only [TLocal, upd_same, logStep]
       exact ⟨s.now, ha, rfl⟩
-    · tothers hinv s g hca noend (t c)
+    · tothers hinv s g hca hra noend (t c)
   | fnEnd a r =>
     simp only [step] at hs
     split at hs <;> try (simp at hs)
     rename_i hpc
     have ha := t a
     simp only [TLocal, hpc] at ha
+    have hla := hinv.loc a
+    simp only [Local, hpc] at hla
+    have hra : s.result a = none := hla.2.2.2
     subst hs
     refine ⟨fun c ti hc => m c ti hc, ?_⟩
     intro c
@@ -718,7 +936,7 @@ theorem tinv_step {cfg : Cfg} {c0 : Nat → Cell} {s s' : State} {g : EvLog} {l 
         by_cases hxa : x = a
         · subst hxa; exact Or.inr hpc
         · exact Or.inl (upd_other _ _ _ _ hxa)
-      tothers hinv s g hca hend (t c)
+      tothers hinv s g hca hra hend (t c)
   | cacheSet a =>
     simp only [step] at hs
     split at hs <;> try (simp at hs)
@@ -726,14 +944,18 @@ theorem tinv_step {cfg : Cfg} {c0 : Nat → Cell} {s s' : State} {g : EvLog} {l 
       rename_i hpc
       have ha := t a
       simp only [TLocal, hpc] at ha
+      have hla := hinv.loc a
+      simp only [Local, hpc] at hla
+      have hra : s.result a = none := hla.2.2.2
+      have hsrc : s.src a = some (.exec a) := hla.1
       subst hs
       refine ⟨fun c ti hc => m c ti hc, ?_⟩
       intro c
       by_cases hca : c = a
       · subst hca
-        simp only [TLocal, upd_same, logStep]
+        simp only [TLocal, upd_same, logStep, hsrc]
         exact ha
-      · tothers hinv s g hca noend (t c)
+      · tothers hinv s g hca hra noend (t c)
   | doFinish a =>
     simp only [step] at hs
     split at hs <;> try (simp at hs)
@@ -744,20 +966,35 @@ theorem tinv_step {cfg : Cfg} {c0 : Nat → Cell} {s s' : State} {g : EvLog} {l 
     simp only [Local, hpc] at hla
     subst hs
     refine ⟨fun c ti hc => m c ti hc, ?_⟩
-    intro c
-    by_cases hca : c = a
-    · subst hca
-      obtain ⟨ti, h1, h2, h3⟩ := ha
-      simp only [TLocal, upd_same, logStep, hla.1]
-      exact Or.inl ⟨trivial, ti, s.now, h1, h2, h3, rfl, m c ti h1⟩
-    · obtain ⟨ti, h1, h2, h3⟩ := ha
-      exact tlocal_congr (s := s) (g := g) hinv (upd_other _ _ _ _ hca) rfl rfl rfl (upd_other _ _ _ _ hca) rfl rfl
-        (fun x r' hr => by
-          by_cases hxa : x = a
-          · subst hxa; exact Or.inr h3
-          · have hr' : upd s.result a (some r) x = some r' := hr
-            rw [upd_other _ _ _ _ hxa] at hr'; exact Or.inl hr')
-        noend (t c)
+    rcases hla with hla | ⟨v, _, hla, _⟩
+    · simp only [hla.1] at ha
+      intro c
+      by_cases hca : c = a
+      · subst hca
+        obtain ⟨ti, h1, h2, h3⟩ := ha
+        simp only [TLocal, upd_same, logStep, hla.1]
+        exact Or.inl ⟨trivial, ti, s.now, h1, h2, h3, rfl, m c ti h1⟩
+      · obtain ⟨ti, h1, h2, h3⟩ := ha
+        exact tlocal_congr (s := s) (g := g) hinv (upd_other _ _ _ _ hca) rfl rfl rfl (upd_other _ _ _ _ hca) rfl rfl
+          (fun x r' hr => by
+            by_cases hxa : x = a
+            · subst hxa; exact Or.inr (Or.inl h3)
+            · have hr' : upd s.result a (some r) x = some r' := hr
+              rw [upd_other _ _ _ _ hxa] at hr'; exact Or.inl hr')
+          (fun _ => Or.inr rfl) noend (t c)
+    · simp only [hla] at ha
+      intro c
+      by_cases hca : c = a
+      · subst hca
+        simp only [TLocal, upd_same, logStep, hla]
+        exact ⟨s.now, ha, rfl⟩
+      · exact tlocal_congr (s := s) (g := g) hinv (upd_other _ _ _ _ hca) rfl rfl rfl (upd_other _ _ _ _ hca) rfl rfl
+          (fun x r' hr => by
+            by_cases hxa : x = a
+            · subst hxa; exact Or.inr (Or.inr ⟨v, hla⟩)
+            · have hr' : upd s.result a (some r) x = some r' := hr
+              rw [upd_other _ _ _ _ hxa] at hr'; exact Or.inl hr')
+          (fun _ => Or.inr rfl) noend (t c)
   | wake a =>
     simp only [step] at hs
     split at hs <;> try (simp at hs)
@@ -766,6 +1003,7 @@ theorem tinv_step {cfg : Cfg} {c0 : Nat → Cell} {s s' : State} {g : EvLog} {l 
     simp only [TLocal, hpc] at ha
     have hla := hinv.loc a
     simp only [Local, hpc] at hla
+    have hra : s.result a = none := hla.2.2.2.1
     split at hs <;> simp at hs
     rename_i r hr
     subst hs
@@ -778,9 +1016,16 @@ theorem tinv_step {cfg : Cfg} {c0 : Nat → Cell} {s s' : State} {g : EvLog} {l 
         intro h; subst h
         have := (published_done (hinv.loc l) hr).1
         rw [hpc] at this; cases this
-      simp only [TLocal, upd_same, logStep, hla.1]
-      exact Or.inr ⟨hlc, ti, s.now, h1, h2 r hr, rfl, m c ti h1⟩
-    · tothers hinv s g hca noend (t c)
+      rcases (published_done (hinv.loc l) hr).2 with hsl | ⟨v, _, hsl⟩
+      · have e1 : wakeSrc s c l = some (.exec l) := by simp only [wakeSrc, hsl]; exact hla.1
+        simp only [TLocal, upd_same, logStep, e1]
+        rcases h2 r hr with h3 | ⟨v, h3⟩
+        · exact Or.inr ⟨hlc, ti, s.now, h1, h3, rfl, m c ti h1⟩
+        · rw [hsl] at h3; cases h3
+      · have e1 : wakeSrc s c l = some (.lhit l v) := by simp only [wakeSrc, hsl]
+        simp only [TLocal, upd_same, logStep, e1]
+        exact ⟨s.now, (hl.wait c l v hpc hsl).1, rfl⟩
+    · tothers hinv s g hca hra noend (t c)
   | tick d =>
     simp only [step, Option.some.injEq] at hs
     subst hs
@@ -809,20 +1054,350 @@ theorem tinv_step {cfg : Cfg} {c0 : Nat → Cell} {s s' : State} {g : EvLog} {l 
       | running => simp only [hpc] at htc ⊢; exact htc
       | done r => simp only [hpc] at htc ⊢; exact htc
 
+/-- steps that change neither the clock nor the cache, add no joiner and no re-check hit -/
+theorem linv_frame {cfg : Cfg} {s s' : State} {g g' : EvLog} (hl : LInv cfg s g)
+    (hnow : s'.now = s.now) (hcache : s'.cache = s.cache)
+    (hw : ∀ c l, s'.pc c = .waiting l → s.pc c = .waiting l ∧ g'.invT c = g.invT c)
+    (hfl : ∀ c l, s.pc c = .waiting l → (s.flight (cfg.key c) = some l ∨ ∃ r, s.result l = some r) →
+        (s'.flight (cfg.key c) = some l ∨ ∃ r, s'.result l = some r))
+    (hld : ∀ c l, s.pc c = .waiting l → s'.pc l = .leader → s.pc l = .leader)
+    (hsrc : ∀ l v, s'.src l = some (.lhit l v) → s.src l = some (.lhit l v))
+    (hres : ∀ c, s'.result c = none → s.result c = none) : LInv cfg s' g' := by
+  refine ⟨?_, ?_, ?_, ?_⟩
+  · intro c l hc
+    obtain ⟨h1, _⟩ := hw c l hc
+    exact hfl c l h1 (hl.fl c l h1)
+  · intro c v h1 h2
+    rw [hnow, hcache]
+    exact hl.lead c v (hsrc c v h1) (hres c h2)
+  · intro c l hc hl'
+    obtain ⟨h1, h2⟩ := hw c l hc
+    rw [h2, hnow]
+    exact hl.fresh c l h1 (hld c l h1 hl')
+  · intro c l v hc hs
+    obtain ⟨h1, h2⟩ := hw c l hc
+    rw [h2, hnow, hcache]
+    exact hl.wait c l v h1 (hsrc l v hs)
+
+/-- only `a` moved, and not to `waiting` -/
+theorem waiting_other {pc : Nat → PC} {a c l : Nat} {p : PC} (hp : ∀ x, p ≠ .waiting x)
+    (h : upd pc a p c = .waiting l) : c ≠ a ∧ pc c = .waiting l := by
+  by_cases hca : c = a
+  · subst hca; rw [upd_same] at h; exact absurd h (hp l)
+  · rw [upd_other _ _ _ _ hca] at h; exact ⟨hca, h⟩
+
+theorem leader_other {pc : Nat → PC} {a c : Nat} {p : PC} (hp : p ≠ .leader)
+    (h : upd pc a p c = .leader) : pc c = .leader := by
+  by_cases hca : c = a
+  · subst hca; rw [upd_same] at h; exact absurd h hp
+  · rw [upd_other _ _ _ _ hca] at h; exact h
+
+theorem linv_step {cfg : Cfg} {c0 : Nat → Cell} {s s' : State} {g : EvLog} {l : Label}
+    (hinv : Inv cfg c0 s) (hsi : SInv cfg s g) (hti : TInv s g) (hl : LInv cfg s g)
+    (hs : step cfg s l = some s')
+    (hp : ∀ d, l = .tick d → ∀ c, blocked s c) : LInv cfg s' (logStep cfg s g l) := by
+  cases l with
+  | invoke a =>
+    simp only [step] at hs
+    split at hs <;> try (simp at hs)
+    rename_i hpc
+    subst hs
+    refine linv_frame hl rfl rfl ?_ (fun _ _ _ h => h) ?_ (fun _ _ h => h) (fun _ h => h)
+    · intro c l hc
+      obtain ⟨hca, h1⟩ := waiting_other (by intro x; simp) hc
+      exact ⟨h1, upd_other _ _ _ _ hca⟩
+    · intro c l _ h; exact leader_other (by simp) h
+  | cacheCheck a =>
+    simp only [step] at hs
+    split at hs <;> try (simp at hs)
+    rename_i hpc
+    have hla := hinv.loc a
+    simp only [Local, hpc] at hla
+    split at hs <;> simp at hs <;> subst hs
+    · rename_i v hv
+      simp only [logStep, hv]
+      refine linv_frame hl rfl rfl ?_ (fun _ _ _ h => h) ?_ ?_ (fun _ h => h)
+      · intro c l hc
+        obtain ⟨hca, h1⟩ := waiting_other (by intro x; simp) hc
+        exact ⟨h1, rfl⟩
+      · intro c l _ h; exact leader_other (by simp) h
+      · intro l w h
+        by_cases hla' : l = a
+        · subst hla'
+          have h' : upd s.src l (some (Src.hit v)) l = some (Src.lhit l w) := h
+          rw [upd_same] at h'; cases h'
+        · have h' : upd s.src a (some (Src.hit v)) l = some (Src.lhit l w) := h
+          rw [upd_other _ _ _ _ hla'] at h'; exact h'
+    · rename_i hv
+      simp only [logStep, hv]
+      refine linv_frame hl rfl rfl ?_ (fun _ _ _ h => h) ?_ (fun _ _ h => h) (fun _ h => h)
+      · intro c l hc
+        obtain ⟨hca, h1⟩ := waiting_other (by intro x; simp) hc
+        exact ⟨h1, rfl⟩
+      · intro c l _ h; exact leader_other (by simp) h
+  | doEnter a =>
+    simp only [step] at hs
+    split at hs <;> try (simp at hs)
+    rename_i hpc
+    have hla := hinv.loc a
+    simp only [Local, hpc] at hla
+    have hta := hti.loc a
+    simp only [TLocal, hpc] at hta
+    split at hs <;> simp at hs <;> subst hs
+    · -- `a` joins the flight led by `l0`
+      rename_i l0 hl0
+      have hact := hsi.flt _ _ hl0
+      have hrl := active_result_none (hinv.loc l0) hact
+      have hkey := hinv.fkey _ _ hl0
+      have hl0a : l0 ≠ a := by intro h; subst h; rw [hpc] at hact; simp [active] at hact
+      have hsrc : ∀ l v, upd s.src a (some (Src.exec l0)) l = some (Src.lhit l v) → s.src l = some (Src.lhit l v) := by
+        intro l v h
+        by_cases hla' : l = a
+        · subst hla'; rw [upd_same] at h; cases h
+        · rw [upd_other _ _ _ _ hla'] at h; exact h
+      have hpcl : ∀ l, l ≠ a → upd s.pc a (PC.waiting l0) l = s.pc l := fun l h => upd_other _ _ _ _ h
+      refine ⟨?_, ?_, ?_, ?_⟩
+      · intro c l hc
+        by_cases hca : c = a
+        · subst hca
+          have hc' : upd s.pc c (PC.waiting l0) c = PC.waiting l := hc
+          rw [upd_same] at hc'; cases hc'
+          exact Or.inl hl0
+        · have hc' : upd s.pc a (PC.waiting l0) c = PC.waiting l := hc
+          rw [upd_other _ _ _ _ hca] at hc'
+          exact hl.fl c l hc'
+      · intro c v h1 h2
+        exact hl.lead c v (hsrc c v h1) h2
+      · intro c l hc hld
+        have hld' : upd s.pc a (PC.waiting l0) l = PC.leader := hld
+        have hlne : l ≠ a := by intro h; subst h; rw [upd_same] at hld'; cases hld'
+        rw [upd_other _ _ _ _ hlne] at hld'
+        by_cases hca : c = a
+        · subst hca; exact hta
+        · have hc' : upd s.pc a (PC.waiting l0) c = PC.waiting l := hc
+          rw [upd_other _ _ _ _ hca] at hc'
+          exact hl.fresh c l hc' hld'
+      · intro c l v hc h1
+        have h1' := hsrc l v h1
+        by_cases hca : c = a
+        · subst hca
+          have hc' : upd s.pc c (PC.waiting l0) c = PC.waiting l := hc
+          rw [upd_same] at hc'; cases hc'
+          refine ⟨hta, ?_⟩
+          have := hl.lead l0 v h1' hrl
+          rw [hkey] at this; exact this
+        · have hc' : upd s.pc a (PC.waiting l0) c = PC.waiting l := hc
+          rw [upd_other _ _ _ _ hca] at hc'
+          exact hl.wait c l v hc' h1'
+    · -- `a` becomes the leader of its key
+      rename_i hfl0
+      refine linv_frame hl rfl rfl ?_ ?_ ?_ ?_ (fun _ h => h)
+      · intro c l hc
+        obtain ⟨hca, h1⟩ := waiting_other (by intro x; simp) hc
+        exact ⟨h1, rfl⟩
+      · intro c l hc h
+        rcases h with h | h
+        · by_cases hk : cfg.key c = cfg.key a
+          · rw [hk, hfl0] at h; cases h
+          · exact Or.inl ((upd_other _ _ _ _ hk).trans h)
+        · exact Or.inr h
+      · intro c l hc h
+        by_cases hla' : l = a
+        · subst hla'
+          exfalso
+          rcases hl.fl c l hc with h1 | ⟨r, h1⟩
+          · have := hsi.flt _ _ h1
+            rw [hpc] at this; simp [active] at this
+          · rw [hla.2.2.2] at h1; cases h1
+        · have h' : upd s.pc a PC.leader l = PC.leader := h
+          rw [upd_other _ _ _ _ hla'] at h'; exact h'
+      · intro l w h
+        by_cases hla' : l = a
+        · subst hla'
+          have h' : upd s.src l (some (Src.exec l)) l = some (Src.lhit l w) := h
+          rw [upd_same] at h'; cases h'
+        · have h' : upd s.src a (some (Src.exec a)) l = some (Src.lhit l w) := h
+          rw [upd_other _ _ _ _ hla'] at h'; exact h'
+  | leadHit a =>
+    simp only [step] at hs
+    split at hs <;> try (simp at hs)
+    rename_i hpc
+    have hla := hinv.loc a
+    simp only [Local, hpc] at hla
+    split at hs <;> simp at hs
+    rename_i v hv
+    subst hs
+    have hsrc : ∀ l w, upd s.src a (some (Src.lhit a v)) l = some (Src.lhit l w) →
+        (l = a ∧ w = v) ∨ (l ≠ a ∧ s.src l = some (Src.lhit l w)) := by
+      intro l w h
+      by_cases hla' : l = a
+      · subst hla'; rw [upd_same] at h; cases h; exact Or.inl ⟨rfl, rfl⟩
+      · rw [upd_other _ _ _ _ hla'] at h; exact Or.inr ⟨hla', h⟩
+    refine ⟨?_, ?_, ?_, ?_⟩
+    · intro c l hc
+      obtain ⟨_, h1⟩ := waiting_other (by intro x; simp) hc
+      exact hl.fl c l h1
+    · intro c w h1 h2
+      rcases hsrc c w h1 with ⟨h3, h4⟩ | ⟨_, h3⟩
+      · subst h3; subst h4; exact hv
+      · exact hl.lead c w h3 h2
+    · intro c l hc hld
+      obtain ⟨_, h1⟩ := waiting_other (by intro x; simp) hc
+      exact hl.fresh c l h1 (leader_other (by simp) hld)
+    · intro c l w hc h1
+      obtain ⟨_, h2⟩ := waiting_other (by intro x; simp) hc
+      rcases hsrc l w h1 with ⟨h3, h4⟩ | ⟨_, h3⟩
+      · subst h3; subst h4
+        have hk := hinv.loc c
+        simp only [Local, h2] at hk
+        refine ⟨hl.fresh c l h2 hpc, ?_⟩
+        rw [← hk.2.2.2.2]; exact hv
+      · exact hl.wait c l w h2 h3
+  | fnStart a =>
+    simp only [step] at hs
+    split at hs <;> try (simp at hs)
+    rename_i hpc
+    split at hs <;> simp at hs
+    subst hs
+    refine linv_frame hl rfl rfl ?_ (fun _ _ _ h => h) ?_ (fun _ _ h => h) (fun _ h => h)
+    · intro c l hc
+      obtain ⟨hca, h1⟩ := waiting_other (by intro x; simp) hc
+      exact ⟨h1, rfl⟩
+    · intro c l _ h; exact leader_other (by simp) h
+  | fnEnd a r =>
+    simp only [step] at hs
+    split at hs <;> try (simp at hs)
+    rename_i hpc
+    subst hs
+    refine linv_frame hl rfl rfl ?_ (fun _ _ _ h => h) ?_ (fun _ _ h => h) (fun _ h => h)
+    · intro c l hc
+      obtain ⟨hca, h1⟩ := waiting_other (by intro x; simp) hc
+      exact ⟨h1, rfl⟩
+    · intro c l _ h; exact leader_other (by simp) h
+  | cacheSet a =>
+    simp only [step] at hs
+    split at hs <;> try (simp at hs)
+    · rename_i v hpc
+      subst hs
+      refine ⟨?_, ?_, ?_, ?_⟩
+      · intro c l hc
+        obtain ⟨_, h1⟩ := waiting_other (by intro x; simp) hc
+        exact hl.fl c l h1
+      · intro c w h1 h2
+        exact live_after_set (hl.lead c w h1 h2)
+      · intro c l hc hld
+        obtain ⟨_, h1⟩ := waiting_other (by intro x; simp) hc
+        exact hl.fresh c l h1 (leader_other (by simp) hld)
+      · intro c l w hc h1
+        obtain ⟨_, h2⟩ := waiting_other (by intro x; simp) hc
+        obtain ⟨k1, k2⟩ := hl.wait c l w h2 h1
+        exact ⟨k1, live_after_set k2⟩
+    · rename_i hpc
+      subst hs
+      refine linv_frame hl rfl rfl ?_ (fun _ _ _ h => h) ?_ (fun _ _ h => h) (fun _ h => h)
+      · intro c l hc
+        obtain ⟨hca, h1⟩ := waiting_other (by intro x; simp) hc
+        exact ⟨h1, rfl⟩
+      · intro c l _ h; exact leader_other (by simp) h
+  | doFinish a =>
+    simp only [step] at hs
+    split at hs <;> try (simp at hs)
+    rename_i r hpc
+    have hfa := hinv.lead a (by simp [hpc, active])
+    subst hs
+    refine linv_frame hl rfl rfl ?_ ?_ ?_ (fun _ _ h => h) ?_
+    · intro c l hc
+      obtain ⟨hca, h1⟩ := waiting_other (by intro x; simp) hc
+      exact ⟨h1, rfl⟩
+    · intro c l hc h
+      rcases h with h | ⟨r', h⟩
+      · by_cases hk : cfg.key c = cfg.key a
+        · rw [hk, hfa] at h; cases h
+          exact Or.inr ⟨r, upd_same _ _ _⟩
+        · exact Or.inl ((upd_other _ _ _ _ hk).trans h)
+      · by_cases hla' : l = a
+        · subst hla'; exact Or.inr ⟨r, upd_same _ _ _⟩
+        · exact Or.inr ⟨r', (upd_other _ _ _ _ hla').trans h⟩
+    · intro c l _ h; exact leader_other (by simp) h
+    · intro c h
+      by_cases hca : c = a
+      · subst hca
+        have h' : upd s.result c (some r) c = none := h
+        rw [upd_same] at h'; cases h'
+      · have h' : upd s.result a (some r) c = none := h
+        rw [upd_other _ _ _ _ hca] at h'; exact h'
+  | wake a =>
+    simp only [step] at hs
+    split at hs <;> try (simp at hs)
+    rename_i l0 hpc
+    have hla := hinv.loc a
+    simp only [Local, hpc] at hla
+    split at hs <;> simp at hs
+    rename_i r hr
+    subst hs
+    have hl0a : l0 ≠ a := by intro h; subst h; rw [hla.2.2.2.1] at hr; cases hr
+    refine linv_frame hl rfl rfl ?_ (fun _ _ _ h => h) ?_ ?_ (fun _ h => h)
+    · intro c l hc
+      obtain ⟨hca, h1⟩ := waiting_other (by intro x; simp) hc
+      exact ⟨h1, rfl⟩
+    · intro c l _ h; exact leader_other (by simp) h
+    · intro l w h
+      by_cases hla' : l = a
+      · subst hla'
+        exfalso
+        have h' : upd s.src l (wakeSrc s l l0) l = some (Src.lhit l w) := h
+        rw [upd_same] at h'
+        unfold wakeSrc at h'
+        split at h'
+        · cases h'; exact hl0a rfl
+        · rw [hla.1] at h'; cases h'
+      · have h' : upd s.src a (wakeSrc s a l0) l = some (Src.lhit l w) := h
+        rw [upd_other _ _ _ _ hla'] at h'; exact h'
+  | tick d =>
+    simp only [step, Option.some.injEq] at hs
+    subst hs
+    have hb := hp d rfl
+    have nb_setDone : ∀ c r, s.pc c = .setDone r → False := by
+      intro c r h
+      have := hb c
+      simp only [blocked, h] at this
+    refine ⟨hl.fl, ?_, ?_, ?_⟩
+    · intro c v h1 h2
+      obtain ⟨r, h3⟩ := lhit_pending (hinv.loc c) h1 h2
+      exact absurd h3 (fun h => nb_setDone c r h)
+    · intro c l hc hld
+      have hld' : s.pc l = .leader := hld
+      have := hb l
+      simp only [blocked, hld'] at this
+    · intro c l v hc h1
+      have hc' : s.pc c = .waiting l := hc
+      have hbc := hb c
+      simp only [blocked, hc'] at hbc
+      obtain ⟨r, h3⟩ := lhit_pending (hinv.loc l) h1 hbc
+      exact absurd h3 (fun h => nb_setDone l r h)
+
+
 theorem reachableLogP_reachableLog {cfg : Cfg} {s0 s : State} {g : EvLog}
     (h : ReachableLogP cfg s0 s g) : ReachableLog cfg s0 s g := by
   induction h with
   | refl => exact ReachableLog.refl
   | step l _ hs _ ih => exact ReachableLog.step l ih hs
 
-/-- under the virtual clock all three invariants hold for every reachable (state, log) pair -/
-theorem tinv_reachable {cfg : Cfg} {c0 : Nat → Cell} {now : Int} {s : State} {g : EvLog}
-    (h : ReachableLogP cfg (init c0 now) s g) : TInv s g := by
+/-- under the virtual clock the instant invariants hold for every reachable (state, log) pair -/
+theorem tlinv_reachable {cfg : Cfg} {c0 : Nat → Cell} {now : Int} {s : State} {g : EvLog}
+    (h : ReachableLogP cfg (init c0 now) s g) : TInv s g ∧ LInv cfg s g := by
   induction h with
-  | refl => exact tinv_init c0 now
+  | refl => exact ⟨tinv_init c0 now, linv_init cfg c0 now⟩
   | step l hr hs hp ih =>
     have := sinv_reachable (reachableLogP_reachableLog hr)
-    exact tinv_step this.1 this.2 ih hs hp
+    exact ⟨tinv_step this.1 this.2 ih.1 ih.2 hs hp, linv_step this.1 this.2 ih.1 ih.2 hs hp⟩
+
+/-- under the virtual clock all three invariants hold for every reachable (state, log) pair -/
+theorem tinv_reachable {cfg : Cfg} {c0 : Nat → Cell} {now : Int} {s : State} {g : EvLog}
+    (h : ReachableLogP cfg (init c0 now) s g) : TInv s g := (tlinv_reachable h).1
+
+theorem linv_reachable {cfg : Cfg} {c0 : Nat → Cell} {now : Int} {s : State} {g : EvLog}
+    (h : ReachableLogP cfg (init c0 now) s g) : LInv cfg s g := (tlinv_reachable h).2
 
 /-- instants are recorded exactly where sequence numbers are -/
 structure TimOK (g : EvLog) : Prop where
@@ -849,6 +1424,7 @@ theorem timok_step (cfg : Cfg) (s : State) (g : EvLog) (l : Label) (h : TimOK g)
     · exact ⟨h1, timok_upd h2, h3, h4⟩
     · exact ⟨h1, h2, h3, h4⟩
   | doEnter a => exact ⟨h1, h2, h3, h4⟩
+  | leadHit a => exact ⟨h1, h2, h3, h4⟩
   | fnStart a => exact ⟨h1, h2, timok_upd h3, h4⟩
   | fnEnd a r => exact ⟨h1, h2, h3, timok_upd h4⟩
   | cacheSet a => exact ⟨h1, h2, h3, h4⟩
@@ -901,21 +1477,44 @@ def HitSource (cfg : Cfg) (c0 : Nat → Cell) (s : State) (g : EvLog) (c : Nat) 
      (∃ l te b, cfg.key l = cfg.key c ∧ s.execRes l = some (.ok v) ∧ g.endT l = some te ∧
         g.endAt l = some b ∧ b < t ∧ cellGet ti (some (v, defaultExp cfg.expTime te)) = some v))
 
+/-- what the re-check of a flight's leader read, for a caller of that flight (the leader itself or a
+joiner), possibly before the caller has returned: as `HitSource`, with "before the caller returned"
+phrased for a caller that may not have returned yet -/
+def LeadHitSource (cfg : Cfg) (c0 : Nat → Cell) (s : State) (g : EvLog) (c : Nat) (v : Int) : Prop :=
+  ∃ ti, g.invT c = some ti ∧
+    ((∃ e, c0 (cfg.key c) = some (v, e) ∧ cellGet ti (some (v, e)) = some v) ∨
+     (∃ l te b, cfg.key l = cfg.key c ∧ s.execRes l = some (.ok v) ∧ g.endT l = some te ∧
+        g.endAt l = some b ∧ (∀ t, g.retAt c = some t → b < t) ∧
+        cellGet ti (some (v, defaultExp cfg.expTime te)) = some v))
+
+/-- once the caller has returned, `LeadHitSource` is `HitSource` -/
+theorem LeadHitSource.hitSource {cfg : Cfg} {c0 : Nat → Cell} {s : State} {g : EvLog} {c : Nat} {v : Int} {t : Nat}
+    (h : LeadHitSource cfg c0 s g c v) (ht : g.retAt c = some t) : HitSource cfg c0 s g c v := by
+  obtain ⟨ti, h1, h2⟩ := h
+  refine ⟨ti, t, h1, ht, ?_⟩
+  rcases h2 with h2 | ⟨l, te, b, k1, k2, k3, k4, k5, k6⟩
+  · exact Or.inl h2
+  · exact Or.inr ⟨l, te, b, k1, k2, k3, k4, k5 t ht, k6⟩
+
 structure CInv (cfg : Cfg) (c0 : Nat → Cell) (s : State) (g : EvLog) : Prop where
   orig : ∀ k v e, s.cache k = some (v, e) → CellOrigin cfg c0 s g k v e
   hit : ∀ c v, s.src c = some (.hit v) → HitSource cfg c0 s g c v
+  lhit : ∀ c l v, s.src c = some (.lhit l v) → LeadHitSource cfg c0 s g c v
 
 theorem cinv_init (cfg : Cfg) (c0 : Nat → Cell) (now : Int) : CInv cfg c0 (init c0 now) EvLog.empty where
   orig := by intro k v e h; exact Or.inl h
   hit := by intro c v h; simp [init] at h
+  lhit := by intro c l v h; simp [init] at h
 
 /-- a step that leaves the cache, the recorded function results and the sources alone, and writes end
 instants only for running callers, keeps `CInv` -/
 theorem cinv_congr {cfg : Cfg} {c0 : Nat → Cell} {s s' : State} {g g' : EvLog} (hinv : Inv cfg c0 s)
     (hc : ∀ k v e, s'.cache k = some (v, e) → s.cache k = some (v, e) ∨ CellOrigin cfg c0 s' g' k v e)
     (hsrc : ∀ c v, s'.src c = some (.hit v) → s.src c = some (.hit v) ∨ HitSource cfg c0 s' g' c v)
+    (hlh : ∀ c l v, s'.src c = some (.lhit l v) → s.src c = some (.lhit l v) ∨ LeadHitSource cfg c0 s' g' c v)
     (hex : ∀ l r, s.execRes l = some r → s'.execRes l = some r)
-    (hi : ∀ c v, s.src c = some (.hit v) → g'.invT c = g.invT c) (hx : Ext g g')
+    (hi : ∀ c, s.src c ≠ none → g'.invT c = g.invT c) (hx : Ext g g')
+    (hb : ∀ l b, g.endAt l = some b → b < g.n)
     (hend : ∀ l, g'.endT l = g.endT l ∨ s.pc l = .running)
     (h : CInv cfg c0 s g) : CInv cfg c0 s' g' := by
   have notrun : ∀ l r, s.execRes l = some r → s.pc l ≠ .running := by
@@ -928,7 +1527,12 @@ theorem cinv_congr {cfg : Cfg} {c0 : Nat → Cell} {s s' : State} {g g' : EvLog}
     rcases hend l with h1 | h1
     · rw [h1]; exact ht
     · exact absurd h1 (notrun l r hr)
-  refine ⟨?_, ?_⟩
+  have endAt_keep : ∀ l b, g.endAt l = some b → g'.endAt l = some b := by
+    intro l b k4
+    rcases hx.end l with h4 | ⟨h4, _⟩
+    · rw [h4]; exact k4
+    · rw [h4] at k4; cases k4
+  refine ⟨?_, ?_, ?_⟩
   · intro k v e hk
     rcases hc k v e hk with hk | hk
     · rcases h.orig k v e hk with h1 | ⟨l, te, h1, h2, h3, h4⟩
@@ -942,17 +1546,55 @@ theorem cinv_congr {cfg : Cfg} {c0 : Nat → Cell} {s s' : State} {g g' : EvLog}
         rcases hx.ret c with h4 | ⟨h4, _⟩
         · rw [h4]; exact h2
         · rw [h4] at h2; cases h2
-      refine ⟨ti, t, by rw [hi c v hs]; exact h1, h2', ?_⟩
+      refine ⟨ti, t, by rw [hi c (by rw [hs]; simp)]; exact h1, h2', ?_⟩
       rcases h3 with h3 | ⟨l, te, b, k1, k2, k3, k4, k5, k6⟩
       · exact Or.inl h3
-      · refine Or.inr ⟨l, te, b, k1, hex l _ k2, endT_keep l _ te k2 k3, ?_, k5, k6⟩
-        rcases hx.end l with h4 | ⟨h4, _⟩
-        · rw [h4]; exact k4
-        · rw [h4] at k4; cases k4
+      · exact Or.inr ⟨l, te, b, k1, hex l _ k2, endT_keep l _ te k2 k3, endAt_keep l b k4, k5, k6⟩
+    · exact hs
+  · intro c l v hs
+    rcases hlh c l v hs with hs | hs
+    · obtain ⟨ti, h1, h3⟩ := h.lhit c l v hs
+      refine ⟨ti, by rw [hi c (by rw [hs]; simp)]; exact h1, ?_⟩
+      rcases h3 with h3 | ⟨l', te, b, k1, k2, k3, k4, k5, k6⟩
+      · exact Or.inl h3
+      · refine Or.inr ⟨l', te, b, k1, hex l' _ k2, endT_keep l' _ te k2 k3, endAt_keep l' b k4, ?_, k6⟩
+        intro t ht
+        rcases hx.ret c with h4 | ⟨_, h4⟩
+        · rw [h4] at ht; exact k5 t ht
+        · rw [h4] at ht; cases ht; exact hb l' b k4
     · exact hs
 
+/-- a value that is live in the cache is the one from before the run or was left by a successful execution
+of that key that is in the log -/
+theorem live_origin {cfg : Cfg} {c0 : Nat → Cell} {s : State} {g : EvLog} (hinv : Inv cfg c0 s) (hsi : SInv cfg s g)
+    (h : CInv cfg c0 s g) {k : Nat} {v ti : Int} (hv : cellGet ti (s.cache k) = some v) :
+    (∃ e, c0 k = some (v, e) ∧ cellGet ti (some (v, e)) = some v) ∨
+    (∃ l te b, cfg.key l = k ∧ s.execRes l = some (.ok v) ∧ g.endT l = some te ∧ g.endAt l = some b ∧ b < g.n ∧
+      cellGet ti (some (v, defaultExp cfg.expTime te)) = some v) := by
+  obtain ⟨e, he⟩ := cellGet_some hv
+  rcases h.orig _ _ _ he with h1 | ⟨l, te, h1, h2, h3, h4⟩
+  · left
+    refine ⟨e, h1, ?_⟩
+    rw [← he]; exact hv
+  · right
+    obtain ⟨b, hb⟩ := execRes_logged hinv hsi h2
+    refine ⟨l, te, b, h1, h2, h3, hb, hsi.bnd l b (Or.inr (Or.inr (Or.inr hb))), ?_⟩
+    rw [← h4, ← he]; exact hv
+
+theorem src_upd_hit {src : Nat → Option Src} {a c : Nat} {x : Option Src} {v : Int}
+    (hx : ∀ w, x ≠ some (.hit w)) (h : upd src a x c = some (.hit v)) : src c = some (.hit v) := by
+  by_cases hca : c = a
+  · subst hca; rw [upd_same] at h; exact absurd h (hx v)
+  · rw [upd_other _ _ _ _ hca] at h; exact h
+
+theorem src_upd_lhit {src : Nat → Option Src} {a c l : Nat} {x : Option Src} {v : Int}
+    (hx : ∀ l w, x ≠ some (.lhit l w)) (h : upd src a x c = some (.lhit l v)) : src c = some (.lhit l v) := by
+  by_cases hca : c = a
+  · subst hca; rw [upd_same] at h; exact absurd h (hx l v)
+  · rw [upd_other _ _ _ _ hca] at h; exact h
+
 theorem cinv_step {cfg : Cfg} {c0 : Nat → Cell} {s s' : State} {g : EvLog} {l : Label}
-    (hinv : Inv cfg c0 s) (hsi : SInv cfg s g) (hti : TInv s g) (h : CInv cfg c0 s g)
+    (hinv : Inv cfg c0 s) (hsi : SInv cfg s g) (hti : TInv s g) (hl : LInv cfg s g) (h : CInv cfg c0 s g)
     (hs : step cfg s l = some s') : CInv cfg c0 s' (logStep cfg s g l) := by
   have hx : Ext g (logStep cfg s g l) := by
     -- the log grows by one step
@@ -971,6 +1613,7 @@ theorem cinv_step {cfg : Cfg} {c0 : Nat → Cell} {s s' : State} {g : EvLog} {l 
       · exact ⟨rfl, fun _ => Or.inl rfl, ext_upd ha.2.1, fun _ => Or.inl rfl, fun _ => Or.inl rfl⟩
       · exact ⟨rfl, fun _ => Or.inl rfl, fun _ => Or.inl rfl, fun _ => Or.inl rfl, fun _ => Or.inl rfl⟩
     | doEnter a => exact ⟨rfl, fun _ => Or.inl rfl, fun _ => Or.inl rfl, fun _ => Or.inl rfl, fun _ => Or.inl rfl⟩
+    | leadHit a => exact ⟨rfl, fun _ => Or.inl rfl, fun _ => Or.inl rfl, fun _ => Or.inl rfl, fun _ => Or.inl rfl⟩
     | fnStart a =>
       simp only [step] at hs; split at hs <;> try (simp at hs)
       rename_i hpc
@@ -994,6 +1637,7 @@ theorem cinv_step {cfg : Cfg} {c0 : Nat → Cell} {s s' : State} {g : EvLog} {l 
       exact ⟨rfl, fun _ => Or.inl rfl, ext_upd ha.2.1, fun _ => Or.inl rfl, fun _ => Or.inl rfl⟩
     | tick d => exact ⟨rfl, fun _ => Or.inl rfl, fun _ => Or.inl rfl, fun _ => Or.inl rfl, fun _ => Or.inl rfl⟩
   have noend : ∀ x, g.endT x = g.endT x ∨ s.pc x = .running := fun _ => Or.inl rfl
+  have hb : ∀ l b, g.endAt l = some b → b < g.n := fun l b hlb => hsi.bnd l b (Or.inr (Or.inr (Or.inr hlb)))
   cases l with
   | invoke a =>
     have hs0 := hs
@@ -1001,9 +1645,10 @@ theorem cinv_step {cfg : Cfg} {c0 : Nat → Cell} {s s' : State} {g : EvLog} {l 
     rename_i hpc
     have hla := hinv.loc a; simp only [Local, hpc] at hla
     subst hs
-    refine cinv_congr (s := s) (g := g) hinv (fun _ _ _ hk => Or.inl hk) (fun _ _ hk => Or.inl hk) (fun _ _ hr => hr) ?_ hx noend h
-    intro c v hsc
-    have : c ≠ a := by intro hca; subst hca; rw [hla.1] at hsc; cases hsc
+    refine cinv_congr (s := s) (g := g) hinv (fun _ _ _ hk => Or.inl hk) (fun _ _ hk => Or.inl hk)
+      (fun _ _ _ hk => Or.inl hk) (fun _ _ hr => hr) ?_ hx hb noend h
+    intro c hsc
+    have : c ≠ a := by intro hca; subst hca; exact hsc hla.1
     exact upd_other _ _ _ _ this
   | cacheCheck a =>
     simp only [step] at hs; split at hs <;> try (simp at hs)
@@ -1013,7 +1658,8 @@ theorem cinv_step {cfg : Cfg} {c0 : Nat → Cell} {s s' : State} {g : EvLog} {l 
     split at hs <;> simp at hs <;> subst hs
     · rename_i v hv
       simp only [logStep, hv] at hx ⊢
-      refine cinv_congr (s := s) (g := g) hinv (fun _ _ _ hk => Or.inl hk) ?_ (fun _ _ hr => hr) (fun _ _ _ => rfl) hx noend h
+      refine cinv_congr (s := s) (g := g) hinv (fun _ _ _ hk => Or.inl hk) ?_
+        (fun _ _ _ hk => Or.inl (src_upd_lhit (by intro l w; simp) hk)) (fun _ _ hr => hr) (fun _ _ => rfl) hx hb noend h
       intro c w hsc
       by_cases hca : c = a
       · subst hca
@@ -1021,50 +1667,66 @@ theorem cinv_step {cfg : Cfg} {c0 : Nat → Cell} {s s' : State} {g : EvLog} {l 
         rw [upd_same] at hsc'
         cases hsc'
         right
-        obtain ⟨e, he⟩ := cellGet_some hv
         refine ⟨s.now, g.n, hta, upd_same _ _ _, ?_⟩
-        rcases h.orig _ _ _ he with h1 | ⟨l, te, h1, h2, h3, h4⟩
-        · left
-          refine ⟨e, h1, ?_⟩
-          rw [← he]; exact hv
-        · right
-          obtain ⟨b, hb⟩ := execRes_logged hinv hsi h2
-          refine ⟨l, te, b, h1, h2, h3, hb, hsi.bnd l b (Or.inr (Or.inr (Or.inr hb))), ?_⟩
-          rw [← h4, ← he]; exact hv
+        rcases live_origin hinv hsi h hv with h1 | ⟨l, te, b, k1, k2, k3, k4, k5, k6⟩
+        · exact Or.inl h1
+        · exact Or.inr ⟨l, te, b, k1, k2, k3, k4, k5, k6⟩
       · left
         have hsc' : upd s.src a (some (Src.hit v)) c = some (Src.hit w) := hsc
         rw [upd_other _ _ _ _ hca] at hsc'
         exact hsc'
     · rename_i hv
       simp only [logStep, hv] at hx ⊢
-      exact cinv_congr (s := s) (g := g) hinv (fun _ _ _ hk => Or.inl hk) (fun _ _ hk => Or.inl hk) (fun _ _ hr => hr)
-        (fun _ _ _ => rfl) hx noend h
+      exact cinv_congr (s := s) (g := g) hinv (fun _ _ _ hk => Or.inl hk) (fun _ _ hk => Or.inl hk)
+        (fun _ _ _ hk => Or.inl hk) (fun _ _ hr => hr) (fun _ _ => rfl) hx hb noend h
   | doEnter a =>
     simp only [step] at hs; split at hs <;> try (simp at hs)
     split at hs <;> simp at hs <;> subst hs
     all_goals
-      refine cinv_congr (s := s) (g := g) hinv (fun _ _ _ hk => Or.inl hk) ?_ (fun _ _ hr => hr) (fun _ _ _ => rfl) hx noend h
-      intro c w hsc
-      left
-      by_cases hca : c = a
-      · subst hca
-        have hsc' := hsc
-        simp only [upd_same] at hsc'
-        cases hsc'
-      · have hsc' := hsc
-        simp only [upd_other _ _ _ _ hca] at hsc'
-        exact hsc'
+      exact cinv_congr (s := s) (g := g) hinv (fun _ _ _ hk => Or.inl hk)
+        (fun _ _ hk => Or.inl (src_upd_hit (by intro w; simp) hk))
+        (fun _ _ _ hk => Or.inl (src_upd_lhit (by intro l w; simp) hk)) (fun _ _ hr => hr) (fun _ _ => rfl) hx hb noend h
+  | leadHit a =>
+    simp only [step] at hs; split at hs <;> try (simp at hs)
+    rename_i hpc
+    have hta := hti.loc a; simp only [TLocal, hpc] at hta
+    have hsa := hsi.loc a; simp only [SLocal, hpc] at hsa
+    split at hs <;> simp at hs
+    rename_i v hv
+    subst hs
+    refine cinv_congr (s := s) (g := g) hinv (fun _ _ _ hk => Or.inl hk)
+      (fun _ _ hk => Or.inl (src_upd_hit (by intro w; simp) hk)) ?_ (fun _ _ hr => hr) (fun _ _ => rfl) hx hb noend h
+    intro c l w hsc
+    by_cases hca : c = a
+    · subst hca
+      have hsc' : upd s.src c (some (Src.lhit c v)) c = some (Src.lhit l w) := hsc
+      rw [upd_same] at hsc'
+      cases hsc'
+      right
+      refine ⟨s.now, hta, ?_⟩
+      rcases live_origin hinv hsi h hv with h1 | ⟨l, te, b, k1, k2, k3, k4, k5, k6⟩
+      · exact Or.inl h1
+      · refine Or.inr ⟨l, te, b, k1, k2, k3, k4, ?_, k6⟩
+        intro t ht
+        have ht' : g.retAt c = some t := ht
+        rw [hsa.2.1] at ht'; cases ht'
+    · left
+      have hsc' : upd s.src a (some (Src.lhit a v)) c = some (Src.lhit l w) := hsc
+      rw [upd_other _ _ _ _ hca] at hsc'
+      exact hsc'
   | fnStart a =>
     simp only [step] at hs; split at hs <;> try (simp at hs)
+    split at hs <;> simp at hs
     subst hs
-    exact cinv_congr (s := s) (g := g) hinv (fun _ _ _ hk => Or.inl hk) (fun _ _ hk => Or.inl hk) (fun _ _ hr => hr)
-      (fun _ _ _ => rfl) hx noend h
+    exact cinv_congr (s := s) (g := g) hinv (fun _ _ _ hk => Or.inl hk) (fun _ _ hk => Or.inl hk)
+      (fun _ _ _ hk => Or.inl hk) (fun _ _ hr => hr) (fun _ _ => rfl) hx hb noend h
   | fnEnd a r =>
     simp only [step] at hs; split at hs <;> try (simp at hs)
     rename_i hpc
     have hla := hinv.loc a; simp only [Local, hpc] at hla
     subst hs
-    refine cinv_congr (s := s) (g := g) hinv (fun _ _ _ hk => Or.inl hk) (fun _ _ hk => Or.inl hk) ?_ (fun _ _ _ => rfl) hx ?_ h
+    refine cinv_congr (s := s) (g := g) hinv (fun _ _ _ hk => Or.inl hk) (fun _ _ hk => Or.inl hk)
+      (fun _ _ _ hk => Or.inl hk) ?_ (fun _ _ => rfl) hx hb ?_ h
     · intro l r' hr
       have : l ≠ a := by intro hl; subst hl; rw [hla.2.2.1] at hr; cases hr
       exact (upd_other _ _ _ _ this).trans hr
@@ -1079,7 +1741,8 @@ theorem cinv_step {cfg : Cfg} {c0 : Nat → Cell} {s s' : State} {g : EvLog} {l 
       have hta := hti.loc a; simp only [TLocal, hpc] at hta
       obtain ⟨ti, _, _, hend⟩ := hta
       subst hs
-      refine cinv_congr (s := s) (g := g) hinv ?_ (fun _ _ hk => Or.inl hk) (fun _ _ hr => hr) (fun _ _ _ => rfl) hx noend h
+      refine cinv_congr (s := s) (g := g) hinv ?_ (fun _ _ hk => Or.inl hk) (fun _ _ _ hk => Or.inl hk)
+        (fun _ _ hr => hr) (fun _ _ => rfl) hx hb noend h
       intro k w e hk
       have hk' : upd s.cache (cfg.key a) (cellSet cfg.expTime s.now (s.cache (cfg.key a)) v) k = some (w, e) := hk
       by_cases hkk : k = cfg.key a
@@ -1094,24 +1757,60 @@ theorem cinv_step {cfg : Cfg} {c0 : Nat → Cell} {s s' : State} {g : EvLog} {l 
       · rw [upd_other _ _ _ _ hkk] at hk'
         exact Or.inl hk'
     · subst hs
-      exact cinv_congr (s := s) (g := g) hinv (fun _ _ _ hk => Or.inl hk) (fun _ _ hk => Or.inl hk) (fun _ _ hr => hr)
-        (fun _ _ _ => rfl) hx noend h
+      exact cinv_congr (s := s) (g := g) hinv (fun _ _ _ hk => Or.inl hk) (fun _ _ hk => Or.inl hk)
+        (fun _ _ _ hk => Or.inl hk) (fun _ _ hr => hr) (fun _ _ => rfl) hx hb noend h
   | doFinish a =>
     simp only [step] at hs; split at hs <;> try (simp at hs)
     subst hs
-    exact cinv_congr (s := s) (g := g) hinv (fun _ _ _ hk => Or.inl hk) (fun _ _ hk => Or.inl hk) (fun _ _ hr => hr)
-      (fun _ _ _ => rfl) hx noend h
+    exact cinv_congr (s := s) (g := g) hinv (fun _ _ _ hk => Or.inl hk) (fun _ _ hk => Or.inl hk)
+      (fun _ _ _ hk => Or.inl hk) (fun _ _ hr => hr) (fun _ _ => rfl) hx hb noend h
   | wake a =>
     simp only [step] at hs; split at hs <;> try (simp at hs)
+    rename_i l0 hpc
+    have hla := hinv.loc a; simp only [Local, hpc] at hla
     split at hs <;> simp at hs
+    rename_i r hr
     subst hs
-    exact cinv_congr (s := s) (g := g) hinv (fun _ _ _ hk => Or.inl hk) (fun _ _ hk => Or.inl hk) (fun _ _ hr => hr)
-      (fun _ _ _ => rfl) hx noend h
+    -- the source `a` gets
+    have hws : wakeSrc s a l0 = some (.exec l0) ∨ ∃ v, s.src l0 = some (.lhit l0 v) ∧ wakeSrc s a l0 = some (.lhit l0 v) := by
+      rcases (published_done (hinv.loc l0) hr).2 with hsl | ⟨v, _, hsl⟩
+      · left; simp only [wakeSrc, hsl]; exact hla.1
+      · right; exact ⟨v, hsl, by simp only [wakeSrc, hsl]⟩
+    refine cinv_congr (s := s) (g := g) hinv (fun _ _ _ hk => Or.inl hk) ?_ ?_ (fun _ _ hr => hr) (fun _ _ => rfl) hx hb noend h
+    · intro c w hsc
+      left
+      refine src_upd_hit ?_ hsc
+      intro w' hw
+      rcases hws with h1 | ⟨v, _, h1⟩ <;> (rw [h1] at hw; cases hw)
+    · intro c l w hsc
+      by_cases hca : c = a
+      · subst hca
+        have hsc' : upd s.src c (wakeSrc s c l0) c = some (Src.lhit l w) := hsc
+        rw [upd_same] at hsc'
+        rcases hws with h1 | ⟨v, hsl, h1⟩
+        · rw [h1] at hsc'; cases hsc'
+        · rw [h1] at hsc'
+          simp only [Option.some.injEq, Src.lhit.injEq] at hsc'
+          obtain ⟨e1, e2⟩ := hsc'
+          subst e1; subst e2
+          right
+          obtain ⟨k1, k2⟩ := hl.wait c l0 v hpc hsl
+          refine ⟨s.now, k1, ?_⟩
+          rcases live_origin hinv hsi h k2 with h1 | ⟨l', te, b, m1, m2, m3, m4, m5, m6⟩
+          · exact Or.inl h1
+          · refine Or.inr ⟨l', te, b, m1, m2, m3, m4, ?_, m6⟩
+            intro t ht
+            have ht' : upd g.retAt c (some g.n) c = some t := ht
+            rw [upd_same] at ht'; cases ht'; exact m5
+      · left
+        have hsc' : upd s.src a (wakeSrc s a l0) c = some (Src.lhit l w) := hsc
+        rw [upd_other _ _ _ _ hca] at hsc'
+        exact hsc'
   | tick d =>
     simp only [step, Option.some.injEq] at hs
     subst hs
-    exact cinv_congr (s := s) (g := g) hinv (fun _ _ _ hk => Or.inl hk) (fun _ _ hk => Or.inl hk) (fun _ _ hr => hr)
-      (fun _ _ _ => rfl) hx noend h
+    exact cinv_congr (s := s) (g := g) hinv (fun _ _ _ hk => Or.inl hk) (fun _ _ hk => Or.inl hk)
+      (fun _ _ _ hk => Or.inl hk) (fun _ _ hr => hr) (fun _ _ => rfl) hx hb noend h
 
 /-- under the virtual clock the cache/hit invariant holds for every reachable (state, log) pair -/
 theorem cinv_reachable {cfg : Cfg} {c0 : Nat → Cell} {now : Int} {s : State} {g : EvLog}
@@ -1120,6 +1819,6 @@ theorem cinv_reachable {cfg : Cfg} {c0 : Nat → Cell} {now : Int} {s : State} {
   | refl => exact cinv_init cfg c0 now
   | step l hr hs hp ih =>
     have h1 := sinv_reachable (reachableLogP_reachableLog hr)
-    exact cinv_step h1.1 h1.2 (tinv_reachable hr) ih hs
+    exact cinv_step h1.1 h1.2 (tinv_reachable hr) (linv_reachable hr) ih hs
 
 end GoguVerif.Lemmas.C17
